@@ -40,6 +40,11 @@ R4 GraphMapper keeps `port_tokens`, `token_instances`, `token_availability` in s
 R5 iteration safety.  No loop iterates an internal set (or map) that its body mutates without taking a copy
    (`self.successors(n)` / `self.predecessors(n)` count as copies of the entry they read).
 
+Guards (R1 absent-node, R3 emptiness / flag / membership, R4 emptied-port) are read from the dominating tests through their
+temporaries: `n = len(s); if n == 0` is the test `len(s) == 0` when the assignment is the only definition reaching the test,
+dominates it, nothing it names is re-bound and nothing is mutated between the assignment and the test; a stale temporary
+(measured before the update it is meant to observe) is not a test of the collection and the clause is reported.
+
 Not decided: equivalence with a reference graph for arbitrary operation sequences (needs execution).  For a `replace`
 built on the public primitives (snapshot + remove_node(.., False) + add) the rule decides that no pruning removal is
 reachable; that every snapshotted edge is re-attached is not paired elementwise (R1 inlines helpers one level only).
